@@ -14,6 +14,8 @@ import (
 
 	"github.com/tetratelabs/wazero"
 	"github.com/tetratelabs/wazero/api"
+	"github.com/tetratelabs/wazero/internal/engine/interpreter"
+	"github.com/tetratelabs/wazero/internal/engine/wazevo"
 	c "github.com/tetratelabs/wazero/internal/zz_verif/common"
 	"github.com/tetratelabs/wazero/sys"
 )
@@ -26,6 +28,7 @@ type EngObs struct {
 	Pages   uint32      `json:"pages"`
 	Closed  bool        `json:"closed"`
 	ClosedAt int        `json:"closed_at"` // index of the call after which the module was first seen closed, -1 if never
+	CE      [][2]int    `json:"ce"`    // per call: the call engine's state left behind (compiler: [exitCode, -1]; interpreter: [len(stack), len(frames)])
 	Other   []c.CallObs `json:"other"` // a second, untouched instance called after the history
 	Err     string      `json:"err,omitempty"`
 }
@@ -190,6 +193,13 @@ func runOn(engine string, m *c.ModSpec, bin []byte, calls [][]uint64, reent stri
 			eo.Obs = append(eo.Obs, c.CallObs{Trap: classify(err)})
 		} else {
 			eo.Obs = append(eo.Obs, c.CallObs{Res: c.MaskRes(res, m.FuncSig(fi).R)})
+		}
+		if code, ok := wazevo.VerifExitCode(f); ok {
+			eo.CE = append(eo.CE, [2]int{int(code), -1})
+		} else if st, fr, ok := interpreter.VerifDepths(f); ok {
+			eo.CE = append(eo.CE, [2]int{st, fr})
+		} else {
+			eo.CE = append(eo.CE, [2]int{-1, -1})
 		}
 		if eo.ClosedAt < 0 && mod.IsClosed() {
 			eo.ClosedAt = ci
